@@ -2,6 +2,7 @@
 import ast
 import z3
 from pyvc.sorts import *  # noqa
+from pyvc.sorts import _forall as SAFE_FORALL
 from pyvc.state import *  # noqa
 from pyvc.state import cls_fn
 from pyvc import contract as C
@@ -109,7 +110,7 @@ class CallMixin:
       for a in CONTAINER_ARRAYS:
         old = h.get(a)
         new = fresh(a, heap_sort(a))
-        facts.append(z3.ForAll([r], z3.Implies(z3.And(r < h.alloc, *[r != m for m in mod]),
+        facts.append(SAFE_FORALL([r], z3.Implies(z3.And(r < h.alloc, *[r != m for m in mod]),
                                                new[r] == old[r]), patterns=[new[r]]))
         newh = newh.set(a, new)
     else:
@@ -123,7 +124,7 @@ class CallMixin:
       old = h.get('f:' + f)
       if ctr.allocates:
         new = fresh('f_' + f, ValArr)
-        facts.append(z3.ForAll([r], z3.Implies(z3.And(r < h.alloc, *[r != m for m in mod]),
+        facts.append(SAFE_FORALL([r], z3.Implies(z3.And(r < h.alloc, *[r != m for m in mod]),
                                                new[r] == old[r]), patterns=[new[r]]))
       else:
         new = old
@@ -173,6 +174,8 @@ class CallMixin:
       sn = self.havoc_call(sn, ctr, mod)
       if ctr.result == 'none':
         res = VNone
+      elif ctr.result == 'iter':
+        res = SpecIter()
       elif isinstance(ctr.result, tuple) and ctr.result[0] == 'tuple':
         res = TupleImm([fresh('res', Val) for _ in range(ctr.result[1])])
       else:
@@ -428,7 +431,7 @@ class CallMixin:
     if not z3.is_expr(body):
       self.unsupp('materialising a view of tuples', node)
     arr = fresh('view', ValArr)
-    return arr, z3.ForAll([i], arr[i] == body, patterns=[arr[i]])
+    return arr, SAFE_FORALL([i], arr[i] == body, patterns=[arr[i]])
 
   def bi_list(self, pos, kw, st, node, clsname='list'):
     if not pos:
@@ -471,6 +474,10 @@ class CallMixin:
       self.unsupp('defaultdict(factory, non-dict)', node)
     st2, r = self.new_dict(st, 'defaultdict', has=h.hasarr(ref(src)), val=h.valarr(ref(src)))
     return [Res(st2, VRef(r))]
+
+  def bi_dataclasses_is_dataclass(self, pos, kw, st, node):
+    trusted('dataclasses.is_dataclass: pure predicate')
+    return [Res(st, VBool(is_dataclass_val(self.need_val(pos[0], node))))]
 
   def bi_functools_partial(self, pos, kw, st, node):
     """functools.partial(f, ...): an opaque callable value (only passed on, never called here)."""
@@ -922,7 +929,7 @@ class CallMixin:
       if self.feasible_full(s, z3.Not(z3.And(is_VRef(other), z3.Or([cls_in(oc, n) for n in DICTLIKE])))):
         self.unsupp('set.update with a non-set argument', node)
       new = fresh('union', HasArr)
-      fact = z3.ForAll([k], new[k] == z3.Or(h.hasarr(r)[k], h.hasarr(ref(other))[k]),
+      fact = SAFE_FORALL([k], new[k] == z3.Or(h.hasarr(r)[k], h.hasarr(ref(other))[k]),
                        patterns=[new[k]])
       return [Res(s.with_heap(h.set('dhas', z3.Store(h.get('dhas'), r, new))).assume(fact), VNone)]
     def go_dict(s):
@@ -934,8 +941,8 @@ class CallMixin:
         self.unsupp('dict.update with a non-dict argument', node)
       nh = fresh('upd_has', HasArr)
       nv = fresh('upd_val', ValMap)
-      facts = [z3.ForAll([k], nh[k] == z3.Or(h.hasarr(r)[k], h.hasarr(ro)[k]), patterns=[nh[k]]),
-               z3.ForAll([k], nv[k] == z3.If(h.hasarr(ro)[k], h.valarr(ro)[k], h.valarr(r)[k]),
+      facts = [SAFE_FORALL([k], nh[k] == z3.Or(h.hasarr(r)[k], h.hasarr(ro)[k]), patterns=[nh[k]]),
+               SAFE_FORALL([k], nv[k] == z3.If(h.hasarr(ro)[k], h.valarr(ro)[k], h.valarr(r)[k]),
                          patterns=[nv[k]])]
       h = h.set('dhas', z3.Store(h.get('dhas'), r, nh))
       h = h.set('dval', z3.Store(h.get('dval'), r, nv))
@@ -1084,10 +1091,11 @@ param_row = z3.Function('param_row', I, ValArr)
 
 def param_row_axiom():
   g, i = z3.Ints('pr_g pr_i')
-  return z3.ForAll([g, i], param_row(g)[i] == VParam(g, i), patterns=[param_row(g)[i]])
+  return SAFE_FORALL([g, i], param_row(g)[i] == VParam(g, i), patterns=[param_row(g)[i]])
 
 
 is_type_obj = z3.Function('is_type_obj', I, B)
+is_dataclass_val = z3.Function('is_dataclass_val', Val, B)
 is_callable_obj = z3.Function('is_callable_obj', I, B)
 id_of_val = z3.Function('id_of_val', Val, I)
 user_len = z3.Function('user_len', I, I)
